@@ -20,7 +20,7 @@ THEOREMS = ["Qentem.Props.C15." + t for t in [
     "val_gt_eq_lt_swap", "val_eq_comm", "val_dual_partial", "val_lt_trans_partial", "val_trans_partial",
     "val_eq_iff_partial", "fixed_consistent", "fixed_dual", "fixed_trans", "fixed_agrees_on_equal_nesting", "val_lt_irrefl",
     "val_lt_same_kind", "val_lt_cross_kind", "value_type_ranks",
-    "sort_ordered_permutation", "sort_segment", "str_lt_strict", "str_gt_strict", "string_sort_ascending",
+    "sort_ordered_permutation", "sort_strict_weak_order", "sort_segment", "str_lt_strict", "str_gt_strict", "string_sort_ascending",
     "string_sort_descending", "object_sort_lookup", "val_lt_strict", "val_gt_strict", "value_sort_ordered_false", "value_sort_partial",
     "value_sort_le_chain_partial", "oracle_permutation_sound", "oracle_ordered_sound", "oracle_chain_sound",
 ]]
